@@ -75,6 +75,12 @@ pub use union::UnionTypeDef;
 
 const DEFAULT_MAX: usize = 50;
 
+/// How deep selection sets nest in a generated operation or fragment. The
+/// parser and the validator give up on documents that nest too deep, and a
+/// recursive type would otherwise let the generator recurse until the stack
+/// overflows.
+pub(crate) const MAX_SELECTION_SET_DEPTH: usize = 10;
+
 /// DocumentBuilder is a struct to build an arbitrary valid GraphQL document
 ///
 /// ```compile_fail
@@ -112,6 +118,8 @@ pub struct DocumentBuilder<'a> {
     // Useful to keep the same arguments for a specific field on a specific type
     pub(crate) chosen_arguments: IndexMap<TypeAttributeCoordinate, Vec<Argument>>,
     pub(crate) used_type_names: HashSet<String>,
+    // Number of selection sets enclosing the selection being generated
+    pub(crate) selection_set_depth: usize,
     // Maximum number of generated definitions per kind
     max_scalar_types: usize,
     max_enum_types: usize,
@@ -160,6 +168,7 @@ impl<'a> DocumentBuilder<'a> {
             stack: Vec::new(),
             chosen_arguments: IndexMap::new(),
             used_type_names: HashSet::new(),
+            selection_set_depth: 0,
             max_scalar_types: DEFAULT_MAX,
             max_enum_types: DEFAULT_MAX,
             max_interface_types: DEFAULT_MAX,
@@ -342,6 +351,7 @@ impl<'a> DocumentBuilder<'a> {
             stack: Vec::new(),
             chosen_arguments: IndexMap::new(),
             used_type_names: HashSet::new(),
+            selection_set_depth: 0,
             max_scalar_types: DEFAULT_MAX,
             max_enum_types: DEFAULT_MAX,
             max_interface_types: DEFAULT_MAX,
@@ -417,6 +427,20 @@ impl<'a> DocumentBuilder<'a> {
             // its own to put on the stack: `field` handles union-typed fields.
             false
         }
+    }
+
+    /// Whether a field of type `ty` must have a selection set, i.e. `ty`
+    /// names an object, interface or union type of the document.
+    pub(crate) fn is_composite_ty(&self, ty: &Ty) -> bool {
+        let type_name = ty.name();
+        self.object_type_defs
+            .iter()
+            .any(|object_ty_def| &object_ty_def.name == type_name)
+            || self
+                .interface_type_defs
+                .iter()
+                .any(|itf_type_def| &itf_type_def.name == type_name)
+            || self.is_union_ty(ty)
     }
 
     /// Whether `ty` names a union type of the document.
